@@ -2454,6 +2454,15 @@ pub fn compile<I: BufRead, O: Write>(
     let r = Cc2600Parser::parse(Rule::program, preprocessed_utf8);
     match r {
         Err(e) => {
+            if mapped_lines.is_empty() {
+                // Nothing reached the parser (empty input, or everything skipped)
+                return Err(Error::Syntax {
+                    filename: args.input.clone(),
+                    included_in: None,
+                    line: 1,
+                    msg: e.variant.message().to_string(),
+                });
+            }
             let mut ex = e.clone();
             let filename;
             let line;
